@@ -513,6 +513,22 @@ def resolve_crate_call(ex, f, argv, frame):
                     fn_ = fl[0]
                     if norm_ty(fn_.types[0]) == want_ret and fn_.args and norm_ty(fn_.types[fn_.args[0]]) == want_arg:
                         return True, ex.call_fn(name, argv, {})
+        # derive-generated impls (#[derive(Default, Clone, PartialEq, ...)]: the impl span is the derive attribute):
+        # resolved by the MIR signature (return type for argument-less methods, receiver type otherwise)
+        if ver_of(m.group(1)) or not m.group(1).startswith(('std::', 'core::', 'alloc::', '&', '[', '(')):
+            want = norm_ty(m.group(1))
+            dc = []
+            for name, fl in ex.fns.items():
+                if not name.endswith('>::' + meth) or '<impl at' not in name:
+                    continue
+                fn_ = fl[0]
+                if not fn_.args:
+                    if norm_ty(fn_.types[0]) == want:
+                        dc.append(name)
+                elif norm_ty(fn_.types[fn_.args[0]]) in ('&' + want, want, '&mut' + want):
+                    dc.append(name)
+            if len(dc) == 1 and not any(dc[0] == c[2] for c in cands):
+                return True, ex.call_fn(dc[0], argv, {})
         # trait default methods (fn Trait::method with Self generic)
         dn = last_seg(strip_generics(tr)) + '::' + meth
         if dn in ex.fns:
@@ -564,7 +580,8 @@ def ver_of(t):
 
 
 def unify_impl(prog, fname, pattern, actual):
-    """bind the impl's generic type parameters by matching `Name<A, B>` against `path::Name<X, Y>`"""
+    """bind the impl's generic type parameters by structural matching of the impl's self type pattern
+    (`Name<A, B>`, `(T, &[u8])`, `&T`, ...) against the actual type"""
     m = re.search(r'<impl at (src/[^:]+):(\d+):', fname)
     if not m:
         return None
@@ -574,18 +591,38 @@ def unify_impl(prog, fname, pattern, actual):
         return None
     gens = [g.split(':')[0].strip() for g in split_top(gm.group(1))]
     gens = [g for g in gens if g and not g.startswith("'")]
-    pm = re.match(r'^([\w:]+)<(.*)>$', pattern)
-    am = re.match(r'^([\w:]+)<(.*)>$', actual)
-    if not pm or not am or last_seg(pm.group(1)) != last_seg(am.group(1)):
-        return None
-    pa, aa = split_top(pm.group(2)), split_top(am.group(2))
-    if len(pa) != len(aa):
-        return None
     out = {}
-    for p, a in zip(pa, aa):
-        if p in gens:
-            out[p] = a
-    return out
+    if _unify(norm_ty(pattern), norm_ty(actual), gens, out):
+        return out
+    return None
+
+
+def _unify(p, a, gens, out):
+    if p in gens:
+        if p in out and out[p] != a:
+            return False
+        out[p] = a
+        return True
+    if p.startswith('&') and a.startswith('&'):
+        p2, a2 = p[1:], a[1:]
+        if p2.startswith('mut') != a2.startswith('mut'):
+            return False
+        return _unify(p2[3:] if p2.startswith('mut') else p2, a2[3:] if a2.startswith('mut') else a2, gens, out)
+    if p.startswith('(') and p.endswith(')') and a.startswith('(') and a.endswith(')'):
+        pa, aa = split_top(p[1:-1]), split_top(a[1:-1])
+        return len(pa) == len(aa) and all(_unify(x, y, gens, out) for x, y in zip(pa, aa))
+    if p.startswith('[') and a.startswith('['):
+        return p == a
+    pm = re.match(r'^([\w:]+)<(.*)>$', p)
+    am = re.match(r'^([\w:]+)<(.*)>$', a)
+    if pm and am:
+        if last_seg(pm.group(1)) != last_seg(am.group(1)):
+            return False
+        pa, aa = split_top(pm.group(2)), split_top(am.group(2))
+        return len(pa) == len(aa) and all(_unify(x, y, gens, out) for x, y in zip(pa, aa))
+    if pm or am:
+        return False
+    return last_seg(p) == last_seg(a)
 
 
 def find_impl_by_receiver(ex, method, selfty, trait):
